@@ -177,6 +177,8 @@ def main():
                 if kf and any(kf == kk["id"] for kk in known):
                     known_hits[kf] = known_hits.get(kf, 0) + 1
                     continue
+                if kf and msg_filter is not None:
+                    continue          # a listed finding of the property that owns this shared stream
                 if len(violations) < 5:
                     violations.append((msg, {"kind": "oracle", "stream": sname, "case": common.canon(c),
                                              "impl": common.canon(obs), "detail": msg}, True))
